@@ -15,7 +15,14 @@ pub static IDENT: TStructIdentifier = TStructIdentifier { name: "V" };
 
 /// which API writes a binary value (same wire form, different zero-copy branches)
 #[derive(Clone, Copy, PartialEq)]
-pub enum StrApi { Bytes, Vec, FastStr }
+pub enum StrApi { Bytes, Vec, FastStr,
+    /// `write_i32(len)` + `write_bytes_without_len` (what emitted code does for retained chunks); binary family only
+    Raw,
+    /// `write_string(&str)` when the payload is UTF-8, else `write_bytes_vec`
+    Str }
+impl StrApi {
+    pub fn of(s: &str) -> Option<StrApi> { Some(match s { "b" => StrApi::Bytes, "v" => StrApi::Vec, "f" => StrApi::FastStr, "r" => StrApi::Raw, "s" => StrApi::Str, _ => return None }) }
+}
 
 pub fn write_val<P: TOutputProtocol>(p: &mut P, v: &Val, api: StrApi, mark: &mut dyn FnMut(&mut P)) -> Result<(), ThriftException> {
     match v {
@@ -30,6 +37,8 @@ pub fn write_val<P: TOutputProtocol>(p: &mut P, v: &Val, api: StrApi, mark: &mut
                 StrApi::Bytes => p.write_bytes(Bytes::copy_from_slice(b))?,
                 StrApi::Vec => p.write_bytes_vec(b)?,
                 StrApi::FastStr => p.write_faststr(unsafe { faststr::FastStr::from_bytes_unchecked(Bytes::copy_from_slice(b)) })?,
+                StrApi::Raw => { p.write_i32(b.len() as i32)?; p.write_bytes_without_len(Bytes::copy_from_slice(b))?; }
+                StrApi::Str => match std::str::from_utf8(b) { Ok(st) => p.write_string(st)?, Err(_) => p.write_bytes_vec(b)? },
             }
             mark(p);
         }
@@ -64,7 +73,10 @@ pub fn write_val<P: TOutputProtocol>(p: &mut P, v: &Val, api: StrApi, mark: &mut
 }
 
 /// the `*_len` twin of `write_val`: one number per op, in the same order.
-pub fn len_val<P: TLengthProtocol>(p: &mut P, v: &Val, out: &mut Vec<usize>) {
+pub fn len_val<P: TLengthProtocol>(p: &mut P, v: &Val, out: &mut Vec<usize>) { len_val_api(p, v, StrApi::Bytes, out) }
+
+/// the same with the `*_len` twin of the string API that will write the payload
+pub fn len_val_api<P: TLengthProtocol>(p: &mut P, v: &Val, api: StrApi, out: &mut Vec<usize>) {
     match v {
         Val::Bool(b) => out.push(p.bool_len(*b)),
         Val::I8(n) => out.push(p.i8_len(*n)),
@@ -72,13 +84,19 @@ pub fn len_val<P: TLengthProtocol>(p: &mut P, v: &Val, out: &mut Vec<usize>) {
         Val::I32(n) => out.push(p.i32_len(*n)),
         Val::I64(n) => out.push(p.i64_len(*n)),
         Val::Dbl(b) => out.push(p.double_len(f64::from_bits(*b))),
-        Val::Bin(b) => out.push(p.bytes_len(b)),
+        Val::Bin(b) => out.push(match api {
+            StrApi::Bytes => p.bytes_len(b),
+            StrApi::Vec => p.bytes_vec_len(b),
+            StrApi::FastStr => p.faststr_len(&unsafe { faststr::FastStr::from_bytes_unchecked(Bytes::copy_from_slice(b)) }),
+            StrApi::Raw => p.i32_len(b.len() as i32) + b.len(),
+            StrApi::Str => match std::str::from_utf8(b) { Ok(st) => p.string_len(st), Err(_) => p.bytes_vec_len(b) },
+        }),
         Val::Uuid(u) => out.push(p.uuid_len(*u)),
         Val::Struct(fs) => {
             out.push(p.struct_begin_len(&IDENT));
             for (id, fv) in fs {
                 out.push(p.field_begin_len(fv.tt().to_p(), Some(*id)));
-                len_val(p, fv, out);
+                len_val_api(p, fv, api, out);
                 out.push(p.field_end_len());
             }
             out.push(p.field_stop_len());
@@ -86,17 +104,17 @@ pub fn len_val<P: TLengthProtocol>(p: &mut P, v: &Val, out: &mut Vec<usize>) {
         }
         Val::List(et, xs) => {
             out.push(p.list_begin_len(TListIdentifier { element_type: et.to_p(), size: xs.len() }));
-            for x in xs { len_val(p, x, out); }
+            for x in xs { len_val_api(p, x, api, out); }
             out.push(p.list_end_len());
         }
         Val::Set(et, xs) => {
             out.push(p.set_begin_len(TSetIdentifier { element_type: et.to_p(), size: xs.len() }));
-            for x in xs { len_val(p, x, out); }
+            for x in xs { len_val_api(p, x, api, out); }
             out.push(p.set_end_len());
         }
         Val::Map(kt, vt, kvs) => {
             out.push(p.map_begin_len(TMapIdentifier { key_type: kt.to_p(), value_type: vt.to_p(), size: kvs.len() }));
-            for (k, x) in kvs { len_val(p, k, out); len_val(p, x, out); }
+            for (k, x) in kvs { len_val_api(p, k, api, out); len_val_api(p, x, api, out); }
             out.push(p.map_end_len());
         }
     }
@@ -168,10 +186,13 @@ impl Proto {
     pub fn name(self) -> &'static str { match self { Proto::Bin => "bin", Proto::Le => "le", Proto::Cmp => "cmp", Proto::UBin => "ubin" } }
 }
 #[derive(Clone, Copy, PartialEq, Debug)]
-pub enum BufK { Bm, Lb0, Lb1 }
+pub enum BufK { Bm, Lb0, Lb1,
+    /// BytesMut with the protocol's `zero_copy` flag set (documented as having no effect on this buffer kind)
+    Bm1 }
 impl BufK {
-    pub fn of(s: &str) -> Option<BufK> { Some(match s { "bm" => BufK::Bm, "lb0" => BufK::Lb0, "lb1" => BufK::Lb1, _ => return None }) }
-    pub fn name(self) -> &'static str { match self { BufK::Bm => "bm", BufK::Lb0 => "lb0", BufK::Lb1 => "lb1" } }
+    pub fn of(s: &str) -> Option<BufK> { Some(match s { "bm" => BufK::Bm, "lb0" => BufK::Lb0, "lb1" => BufK::Lb1, "bm1" => BufK::Bm1, _ => return None }) }
+    pub fn name(self) -> &'static str { match self { BufK::Bm => "bm", BufK::Lb0 => "lb0", BufK::Lb1 => "lb1", BufK::Bm1 => "bm1" } }
+    pub fn zc(self) -> bool { matches!(self, BufK::Lb1 | BufK::Bm1) }
 }
 
 fn lb_concat(lb: &mut LinkedBytes) -> Vec<u8> {
@@ -187,6 +208,23 @@ pub fn size_of(proto: Proto, vals: &[Val]) -> (usize, Vec<usize>) {
         Proto::Bin | Proto::UBin => { let mut p = TBinaryProtocol::new((), false); for v in vals { len_val(&mut p, v, &mut per); } }
         Proto::Le => { let mut p = TBinaryLeProtocol::new((), false); for v in vals { len_val(&mut p, v, &mut per); } }
         Proto::Cmp => { let mut p = TCompactOutputProtocol::new((), false); for v in vals { len_val(&mut p, v, &mut per); } }
+    }
+    (per.iter().sum(), per)
+}
+
+/// the size the OUTPUT protocol that will do the writing reports (its own `TLengthProtocol`, its `zero_copy` flag, the `*_len` twin
+/// of the string API used)
+pub fn size_of_writer(proto: Proto, zc: bool, api: StrApi, vals: &[Val]) -> (usize, Vec<usize>) {
+    let mut per = vec![];
+    match proto {
+        Proto::Bin => { let mut p = TBinaryProtocol::new((), zc); for v in vals { len_val_api(&mut p, v, api, &mut per); } }
+        Proto::Le => { let mut p = TBinaryLeProtocol::new((), zc); for v in vals { len_val_api(&mut p, v, api, &mut per); } }
+        Proto::Cmp => { let mut p = TCompactOutputProtocol::new((), zc); for v in vals { len_val_api(&mut p, v, api, &mut per); } }
+        Proto::UBin => {
+            let empty: &'static mut [u8] = &mut [];
+            let mut p = unsafe { TBinaryUnsafeOutputProtocol::new((), empty, zc) };
+            for v in vals { len_val_api(&mut p, v, api, &mut per); }
+        }
     }
     (per.iter().sum(), per)
 }
@@ -216,17 +254,22 @@ pub fn write_all(proto: Proto, buf: BufK, api: StrApi, vals: &[Val]) -> Result<W
         drop(p);
         Ok(Written { bytes: lb_concat(&mut lb), per_op: per, zero_copy_len: z, note })
     }}; }
-    let zc = buf == BufK::Lb1;
+    let zc = buf.zc();
     match (proto, buf) {
-        (Proto::Bin, BufK::Bm) => bm_run!(|b| TBinaryProtocol::new(b, false)),
-        (Proto::Le, BufK::Bm) => bm_run!(|b| TBinaryLeProtocol::new(b, false)),
-        (Proto::Cmp, BufK::Bm) => bm_run!(|b| TCompactOutputProtocol::new(b, false)),
+        (Proto::Bin, BufK::Bm | BufK::Bm1) => bm_run!(|b| TBinaryProtocol::new(b, zc)),
+        (Proto::Le, BufK::Bm | BufK::Bm1) => bm_run!(|b| TBinaryLeProtocol::new(b, zc)),
+        (Proto::Cmp, BufK::Bm | BufK::Bm1) => bm_run!(|b| TCompactOutputProtocol::new(b, zc)),
         (Proto::Bin, _) => lb_run!(|b| TBinaryProtocol::new(b, zc)),
         (Proto::Le, _) => lb_run!(|b| TBinaryLeProtocol::new(b, zc)),
         (Proto::Cmp, _) => lb_run!(|b| TCompactOutputProtocol::new(b, zc)),
-        (Proto::UBin, BufK::Bm) => {
-            // documented set-up: an output buffer at least as large as the reported size
-            let (size, _) = size_of(Proto::UBin, vals);
+        (Proto::UBin, BufK::Bm | BufK::Bm1) => {
+            // documented set-up: an output buffer at least as large as the reported size (the size the unchecked protocol itself
+            // reports; if that is SMALLER than what the checked length machine says, the window is the larger of the two so that
+            // the harness does not turn a wrong size into undefined behaviour: the mismatch is reported by the size oracle)
+            let (size0, _) = size_of(Proto::UBin, vals);
+            let (size1, _) = size_of_writer(Proto::UBin, zc, api, vals);
+            if size0 != size1 { note = format!("unchecked size {} != checked size {}", size1, size0); }
+            let size = size0.max(size1);
             let mut b = BytesMut::with_capacity(size + 2 * GUARD);
             b.put_bytes(0xAA, GUARD);                        // leading guard (already-written data)
             let base = b.len();
@@ -234,11 +277,11 @@ pub fn write_all(proto: Proto, buf: BufK, api: StrApi, vals: &[Val]) -> Result<W
                 let spare = b.as_mut_ptr().add(base);
                 std::ptr::write_bytes(spare, 0xAA, b.capacity() - base);
                 let window: &'static mut [u8] = std::slice::from_raw_parts_mut(spare, size);
-                let mut p = TBinaryUnsafeOutputProtocol::new(&mut b, window, false);
+                let mut p = TBinaryUnsafeOutputProtocol::new(&mut b, window, zc);
                 for v in vals { write_val(&mut p, v, api, &mut |_| {})?; }
                 let idx = p.index();
                 drop(p);
-                if idx != size { note = format!("index {} != size {}", idx, size); }
+                if idx != size0 { note.push_str(&format!(" index {} != size {}", idx, size0)); }
                 let cap = b.capacity();
                 let tail = std::slice::from_raw_parts(b.as_ptr().add(base + size), cap - base - size);
                 if tail.iter().any(|x| *x != 0xAA) { note.push_str(" wrote-past-window"); }
